@@ -36,6 +36,9 @@ def generate(seed, tier="quick", mode=None, **kw):
     nid = r.randint(2, 6)
     odd_salt = bool(o["salt"]) and o["salt"][0] not in G.J9_ALPHA or o["salt"] == ""
     cls_list = ["j9p", "j9p", "c9", "j9p-num", "text", "md5"] if odd_salt else None
+    if mode == "c07" and not odd_salt and r.random() < 0.1:
+        # an over-long md5 salt fails the file at that line today, identically in both worlds
+        cls_list = ["text", "num", "hex", "t7", "md5", "md5-long", "md5-long", "j9p"]
     if mode == "c08" and r.random() < 0.25:
         cls_list = ["text", "text", "num", "hex", "t7", "md5", "j9p", "pseudo", "pseudo", "rwc"]
     elif mode == "c08" and r.random() < 0.12:
@@ -94,7 +97,7 @@ def generate(seed, tier="quick", mode=None, **kw):
                 # the same Juniper plaintext in clear, in a slot that takes text
                 for s in ln["segs"]:
                     if s[0] == "sec" and s[2].get("enc") == "j9" and r.random() < 0.3:
-                        pc = {"j9p": "text", "j9p-num": "num", "j9p-hex": "hex"}[secrets[str(s[2]["id"])]["cls"]]
+                        pc = {"j9p": "text", "j9p-num": "num", "j9p-hex": "hex", "j9p-l1": "text"}[secrets[str(s[2]["id"])]["cls"]]
                         if pc in _allowed(ln["tmpl"]):
                             s[2]["enc"] = "plain"
                 lines.append(ln)
